@@ -7,8 +7,14 @@ FORBIDDEN = re.compile(r"\bsorry\b|\badmit\b|^\s*axiom\s|\bnative_decide\b|\bbv_
 
 
 class LeanLock:
+    """Serialises lake runs of the *same* property (and, with name=None, lakefile regeneration). Different properties build
+    concurrently: they only rebuild their own modules; shared modules and regenerated Gen files are unchanged on disk."""
+
+    def __init__(self, name=None):
+        self.name = name
+
     def __enter__(self):
-        self.f = open(os.path.join(LEAN_DIR, ".verif.lock"), "w")
+        self.f = open(os.path.join(LEAN_DIR, ".verif.lock" + ("." + self.name if self.name else "")), "w")
         fcntl.flock(self.f, fcntl.LOCK_EX)
         return self
 
@@ -105,7 +111,8 @@ def gen_main():
     text = LAKE_HEAD
     for m in mods:
         text += '\n[[lean_exe]]\nname = "model-%s"\nroot = "Driver.%s"\n' % (m.lower(), m)
-    write_if_changed(os.path.join(LEAN_DIR, "lakefile.toml"), text)
+    with LeanLock():
+        write_if_changed(os.path.join(LEAN_DIR, "lakefile.toml"), text)
 
 
 def lake_build(targets, timeout=3000):
